@@ -46,7 +46,7 @@ class SeqPart(Part):
             "distinct program digests that contain >=1 state-changing call and >=1 focus call of the property")
 
     def __init__(self, prop, prof=None, focus=None, mp=None, name=None, weight=1.0, probes=True,
-                 hooks=None, monitor=False, prologue=None, ro_snapshot=False):
+                 hooks=None, monitor=False, prologue=None, ro_snapshot=False, real_mp=False):
         Part.__init__(self, prop)
         self.prof = prof or prop
         self.focus = focus
@@ -58,8 +58,15 @@ class SeqPart(Part):
         if name:
             self.name = name
 
+        self.real_mp = real_mp
+
     def gen(self, seed, tier):
-        return gen.gen_seq_program(seed, self.prof, tier, mp=self.mp)
+        prog = gen.gen_seq_program(seed, self.prof, tier, mp=self.mp,
+                                   length=None if not self.real_mp else 12)
+        if self.real_mp:
+            prog["knobs"]["real_mp"] = True
+            prog["ops"] = [o for o in prog["ops"] if o["op"] != "restart"][:12]
+        return prog
 
     def run(self, prog):
         hooks = self.hooks(prog) if callable(self.hooks) else self.hooks
@@ -118,17 +125,23 @@ class ConcPart(Part):
             "distinct partial-order signatures (per path the sequence of (task, op kind)) in which >= 2 tasks "
             "touched a common path")
 
-    def __init__(self, prop, family="obj", mp=False, name=None, weight=1.0, atom=False):
+    def __init__(self, prop, family="obj", mp=False, name=None, weight=1.0, atom=False, fault=False):
         Part.__init__(self, prop)
         self.family = family
         self.mp = mp
         self.weight = weight
         self.atom = atom
+        self.fault = fault
         if name:
             self.name = name
 
     def gen(self, seed, tier):
         prog = gen.gen_conc_program(seed, self.family, tier, mp=self.mp)
+        if self.fault:
+            import random
+            r = random.Random("cfault:%d" % seed)
+            prog["fault"] = {"index": r.randrange(0, 60), "errno": r.choice(["EIO", "ENOSPC", "EACCES"]),
+                             "persistent": r.random() < 0.5}
         if self.atom:
             prog["atom"] = True
             import random
